@@ -98,6 +98,9 @@ func Check_Modes() {
 			ps[i] = pos{u: unknownPool[sx.Choose("unknownID", len(unknownPool))], length: ls[sx.Choose("unknownLen", len(ls))]}
 		}
 	}
+	if n == 3 {
+		maxRec = 1 // three positions: one record (two records x three positions: 17 min in all)
+	}
 	nrec := sx.Range("records", 1, maxRec)
 	recs := make([][]val, nrec)
 	for r := range recs {
